@@ -209,12 +209,16 @@ def render_canonical(spec, cls_suffix="", _providers_only=False, _uid=None):
             L.append(f"class {cname}(MachineMixin):")
             L.append(f"    state_machine_name = 'vmon_dyn_{uid}.M_{uid}'")
             L.append("    bind_events_as_methods = True")
+        elif prov == "model" and spec.get("model_shape") == "libmodel":
+            L.append(f"class {cname}(LibModel):")       # the user's domain model extends the library's Model class
         else:
             L.append(f"class {cname}:")
         body = []
         if prov == "model":
             fld = spec.get("state_field", "state")
             shape = spec.get("model_shape", "attr")
+            if shape == "libmodel":
+                shape = "attr" if fld != "state" else "missing"
             if shape in ("attr", "default"):
                 body.append(f"    {fld} = None")
             elif shape == "missing":
@@ -355,7 +359,9 @@ def load(spec, rec, source=None, cls_suffix=""):
     source = source if source is not None else render(spec, cls_suffix)
     modname = f"vmon_dyn_{uid}"
     mod = types.ModuleType(modname)
-    mod.__dict__.update({"State": State, "StateMachine": StateMachine, "Event": Event, "States": States, "REC": rec, "MachineMixin": MachineMixin})
+    from statemachine.model import Model as _LibModel
+    mod.__dict__.update({"State": State, "StateMachine": StateMachine, "Event": Event, "States": States, "REC": rec, "MachineMixin": MachineMixin,
+                         "LibModel": _LibModel})
     for k, v in spec.get("ns_extra", {}).items():
         mod.__dict__[k] = v
     sys.modules[modname] = mod
